@@ -137,7 +137,7 @@ type Op struct {
 	Write     bool
 	Main      string // main table
 	MainModel string
-	SeqTx     bool // the operation legitimately runs several transactions one after the other (Save falling back to insert)
+	SeqTx     bool     // the operation legitimately runs several transactions one after the other (Save falling back to insert)
 	Expect    []Expect // hook expectations when it succeeds
 	NoHooks   bool     // SkipHooks session / column-update methods
 	Run       func(db *gorm.DB) error
@@ -171,9 +171,17 @@ func errClass(err error) string {
 	return "other"
 }
 
+// the acceptor knows one kind of driver fault; "late" says how it was delivered
+func faultName(m string) string {
+	if m == "drvlate" {
+		return "drv"
+	}
+	return m
+}
+
 // Fault selects what to break in a run.
 type Fault struct {
-	Mode string `json:"mode"` // none drv hook cancel
+	Mode string `json:"mode"` // none drv drvlate (a query's fault shows when its rows are read) hook cancel
 	K    int    `json:"k"`
 }
 
@@ -193,6 +201,8 @@ func (e *Env) RunTrace(caseNo int, op Op, f Fault, ctxTag string, baselinePost s
 	switch f.Mode {
 	case "drv":
 		e.Rec.FailAt(f.K, nil, nil)
+	case "drvlate":
+		e.Rec.FailLateAt(f.K, nil, nil)
 	case "hook":
 		e.Rec.CountOnly(nil)
 		e.HR.FailAt = f.K
@@ -236,7 +246,7 @@ func (e *Env) RunTrace(caseNo int, op Op, f Fault, ctxTag string, baselinePost s
 	}
 	// with a warm prepared-statement cache a run issues fewer driver calls than the baseline did:
 	// a fault index that was never reached is a fault-free run
-	if (f.Mode == "drv" && ndrv < f.K) || (f.Mode == "hook" && nhook < f.K) {
+	if ((f.Mode == "drv" || f.Mode == "drvlate") && ndrv < f.K) || (f.Mode == "hook" && nhook < f.K) {
 		f = Fault{Mode: "none"}
 	}
 	expect := []hx.M{}
@@ -244,7 +254,7 @@ func (e *Env) RunTrace(caseNo int, op Op, f Fault, ctxTag string, baselinePost s
 		expect = append(expect, hx.M{"model": x.Model, "rec": x.Rec, "kind": x.Kind})
 	}
 	out := []hx.M{{"ev": "OpStart", "case": caseNo, "op": op.Name, "kind": op.Kind, "write": op.Write, "main": op.Main, "mainmodel": op.MainModel, "seqtx": op.SeqTx, "checkhooks": op.Kind != "assoc" || len(op.Expect) > 0,
-		"nohooks": op.NoHooks, "expect": expect, "fault": f.Mode, "k": f.K, "ctx": ctxTag, "prep": e.Prep}}
+		"nohooks": op.NoHooks, "expect": expect, "fault": faultName(f.Mode), "late": f.Mode == "drvlate", "k": f.K, "ctx": ctxTag, "prep": e.Prep}}
 	hi := 0
 	for _, ev := range evs {
 		if ev.K == "probe" {
